@@ -206,25 +206,14 @@ func fieldType(ntype reflect.Type, name string) (reflect.Type, bool) {
 		case reflect.Interface:
 			return interfaceType, true
 		case reflect.Struct:
-			// First check all struct's fields.
-			for i := 0; i < ntype.NumField(); i++ {
-				f := ntype.Field(i)
-				if f.Name == name {
-					return f.Type, true
-				}
-			}
-
-			// Second check fields of embedded structs.
-			for i := 0; i < ntype.NumField(); i++ {
-				f := ntype.Field(i)
-				if f.Anonymous {
-					if t, ok := fieldType(f.Type, name); ok {
-						return t, true
-					}
-				}
+			// Go's selector rule; only exported fields can be fetched at run time.
+			if f, ok := ntype.FieldByName(name); ok && f.PkgPath == "" {
+				return f.Type, true
 			}
 		case reflect.Map:
-			return ntype.Elem(), true
+			if stringKey(ntype.Key()) {
+				return ntype.Elem(), true
+			}
 		}
 	}
 
@@ -255,29 +244,22 @@ func methodType(t reflect.Type, name string) (reflect.Type, bool, bool) {
 		case reflect.Interface:
 			return interfaceType, false, true
 		case reflect.Struct:
-			// First, check all struct's fields.
-			for i := 0; i < d.NumField(); i++ {
-				f := d.Field(i)
-				if !f.Anonymous && f.Name == name {
-					return f.Type, false, true
-				}
-			}
-
-			// Second, check fields of embedded structs.
-			for i := 0; i < d.NumField(); i++ {
-				f := d.Field(i)
-				if f.Anonymous {
-					if t, method, ok := methodType(f.Type, name); ok {
-						return t, method, true
-					}
-				}
+			if f, ok := d.FieldByName(name); ok && f.PkgPath == "" {
+				return f.Type, false, true
 			}
 
 		case reflect.Map:
-			return d.Elem(), false, true
+			if stringKey(d.Key()) {
+				return d.Elem(), false, true
+			}
 		}
 	}
 	return nil, false, false
+}
+
+// stringKey reports whether a string constant can be used as key of a map with this key type.
+func stringKey(k reflect.Type) bool {
+	return k.Kind() == reflect.String || (k.Kind() == reflect.Interface && k.NumMethod() == 0)
 }
 
 func indexType(ntype reflect.Type) (reflect.Type, bool) {
